@@ -38,6 +38,14 @@ CHECKS = {
             "Exploration: index sequences of length 0..4 incl. out-of-range entries at every position, on FlatEx and DeepEx, through partial / partial_nth / partial_iter / relaxed variants; out-of-range must be Err with the H2 work counter unchanged; all ways agree at random points (exactly over rationals); order zero is the identity (also partial_nth(_,0)); mixed partials commute and match the nested-dual reference.",
             "Trusted: hook H2 counts every call of partial_deepex; dual-number reference. Repeated single partial calls are allowed to work before reaching a bad index.",
             "DESIGN.md 3/C09"),
+    "C10": ("runtime monitor: operator-application histories over expression pools; term-algebra oracle for by-name application, exact-rational / guarded-f64 oracle for overloaded arithmetic with shortcut-hit counters",
+            "Exploration: histories of operate_unary/operate_binary by name on FlatEx and DeepEx (term algebra, random tables: sorted union of variables, term mod AC equals operator applied to operands' reference trees, unknown names are errors), the 23 named helpers, and histories of + - * / neg pow and unary functions on DeepEx over exact rationals and f64 with neutral constants over-represented; values compared with the unsimplified reference wherever it is finite (the statement's proviso). Every shortcut branch must have fired or the run is inconclusive.",
+            "Trusted: reference trees and their evaluation (eval_tree); the proviso filter (unsimplified reference finite, no 0^(<=0)).",
+            "DESIGN.md 3/C10"),
+    "C11": ("runtime monitor: substitution histories over the term algebra against one-pass model substitution on the reference tree",
+            "Exploration: 1..3 rounds of partial maps (constants, renamings, swaps, identity, empty, compound and self-referential replacements) on FlatEx and DeepEx; after every round variable list (sorted union) and term (mod AC) must equal the model's.",
+            "Trusted: model_subs (8 lines) and the reference semantics.",
+            "DESIGN.md 3/C11"),
     "C12": ("runtime monitor: print/parse and serde round trips over the term algebra (Debug form is a matcher literal by construction) and the shipped tables",
             "Exploration: parse->unparse byte identity; texts printed by deep, converted and derived (operator application, substitution, differentiation) expressions are re-parsed as flat and deep expressions and compared with the reference tree (mod AC); serde_json round trips. f64 prints with exponent/non-finite literals are counted and skipped (the property's proviso).",
             "Trusted: reference tree; a derivative's printed text can only bring back variables that still occur (C09 keeps the full list), so derivatives are compared binding by name.",
